@@ -1,6 +1,564 @@
-(* C01 - placeholder until Proofs/StructProofs.v is merged *)
-From Xeh Require Import Model.Prelude Model.Vm Model.Struct.
+(* C01 - the compiled bytecode does what a direct structural evaluation of the source does.
+   Property theorems only; every one is closed by [exact] of a lemma proved in Proofs/Compile*.v.
 
-Theorem C01_empty_block : forall fo funs f s, sblock fo funs (S f) [] s = SDone s.
-Proof. reflexivity. Qed.
-Check C01_empty_block : forall fo funs f s, sblock fo funs (S f) [] s = SDone s.
+   The bytecode in question is the jump-resolved layout of Struct.v ([lay_block] / [lay_top] /
+   [layout_program]); every verification run compares it cell by cell with what the real
+   compiler emits, so a theorem about the layout is a theorem about the compiler's output.
+
+   What is proved (forward simulation, by induction on the evaluator's fuel): started at the
+   first cell of the layout of a tree, in a state related to the evaluator's state, the machine
+     - reaches the cell behind the layout with a related state when the evaluator returns
+       [SDone] (for a whole program at the end of the code vector: [run] returns that state);
+     - stands AT the `break` instruction of the enclosing loop, with a related state, when the
+       evaluator returns [SBroke] (do / begin-repeat / begin-while-repeat catch it: they
+       never return [SBroke], and the theorem for them has no such case);
+     - fails: after some steps the next instruction returns the same kind of error with the
+       same payload, leaving a related state, when the evaluator returns [SFail].  The token
+       position [p] of [SFail] is NOT compared: it needs the debug map, which the layout does
+       not produce.
+     - [SOut] (evaluator out of fuel) and [SUnsup] (outside the model): no claim.
+   Because [steps] / [run] are functions, this also fixes what [run] can return
+   ([C01_run_converse]).
+
+   Vocabulary (Proofs/CompileSim.v, CompileLayout.v, CompileStep.v, CompileProg.v):
+   - [sim t s]: the evaluator's state [t] and the machine's state [s] agree on EVERY component
+     (data stack, heap = variables, output, loop stack, special stack, dictionary, code,
+     limits, flags, the marks of the context, the LOCALS of every return-stack frame) except
+     the instruction pointer, the instruction meter and the fn_addr / return_to fields of the
+     return-stack frames (the evaluator pushes [mkframe 0 0 []] for a call).
+   - [rskeys s]: the (fn_addr, return_to) pairs of the machine's return stack.
+   - [code_at c org l]: the code vector [c] contains the list [l] at address [org].
+   - [funs_placed funs faddr c]: every function body of [funs] is laid out in [c] at its
+     address [faddr g], followed by Ret, is well formed and has no pending break.
+   - [wf_b] / [wf_s]: the body of every begin ... until is free of pending breaks; [nb_b]:
+     no `break` that belongs to a loop outside of the tree; [brk_ok bc b]: with no enclosing
+     loop ([bc = BNone]) the tree has no pending break.  [prog_wf funs l]: top level and
+     function bodies are [wf_b] and [nb_b], every function is defined by a top-level `:`.
+     These are the conditions under which the compiler accepts a tree; EVERY tree returned by
+     the parser whose layout exists satisfies them ([C01_parsed_program_well_formed]), so the
+     source-level theorems have no such hypothesis.
+   - [agrees nf s endp bc r] / [run_agrees fo s r]: spelled out by [C01_agrees_is] /
+     [C01_run_agrees_is].
+
+   Hypotheses that restrict the theorems: recording is off ([rlog s = None]: the machine logs
+   SetIp entries the evaluator has no counterpart for) and there is no instruction limit
+   ([insn_limit s = None]: the evaluator does not count instructions).  Stack and heap limits
+   are NOT restricted: both sides hit them at the same point with the same error. *)
+From Xeh Require Import Model.Prelude Model.Bits Model.Cell Model.Lexer Model.Vm Model.Words Model.Struct Model.Boot.
+From Xeh Require Import Proofs.CompileSim Proofs.CompileLayout Proofs.CompileStep Proofs.CompileEval
+                        Proofs.CompileFwd Proofs.CompileFwd2 Proofs.CompileProg Proofs.CompileLoop
+                        Proofs.CompileRegion Proofs.CompileParse3 Proofs.CompileMain.
+Local Notation length := List.length.
+
+(* ---------- the relation ---------- *)
+Theorem C01_sim_is : forall t s,
+  sim t s <->
+  set_rs (set_meter (set_ip_raw t 0) 0%Z) (map (fun f => mkframe 0 0 (locals f)) (rs t)) =
+  set_rs (set_meter (set_ip_raw s 0) 0%Z) (map (fun f => mkframe 0 0 (locals f)) (rs s)).
+Proof. exact sim_is. Qed.
+Check C01_sim_is : forall t s,
+  sim t s <->
+  set_rs (set_meter (set_ip_raw t 0) 0%Z) (map (fun f => mkframe 0 0 (locals f)) (rs t)) =
+  set_rs (set_meter (set_ip_raw s 0) 0%Z) (map (fun f => mkframe 0 0 (locals f)) (rs s)).
+
+Theorem C01_sim_observables : forall t s, sim t s ->
+  ds t = ds s /\ heap t = heap s /\ out t = out s /\ loops t = loops s /\ special t = special s /\
+  map locals (rs t) = map locals (rs s) /\ code t = code s /\ dict t = dict s /\
+  stack_limit t = stack_limit s /\ heap_limit t = heap_limit s /\ stopping t = stopping s.
+Proof. exact sim_observables. Qed.
+Check C01_sim_observables : forall t s, sim t s ->
+  ds t = ds s /\ heap t = heap s /\ out t = out s /\ loops t = loops s /\ special t = special s /\
+  map locals (rs t) = map locals (rs s) /\ code t = code s /\ dict t = dict s /\
+  stack_limit t = stack_limit s /\ heap_limit t = heap_limit s /\ stopping t = stopping s.
+
+(* the evaluator may simply start from the machine's own state *)
+Theorem C01_sim_start : forall s, sim s s.
+Proof. exact sim_start. Qed.
+Check C01_sim_start : forall s, sim s s.
+
+(* every native word runs the same way on both sides: none of them reads or changes the
+   instruction pointer, the meter or the addresses on the return stack *)
+Theorem C01_natives_respect_sim : forall fo w m t s,
+  native_fn fo w = Some m -> sim t s -> rlog s = None ->
+  match m t, m s with
+  | ROk _ t', ROk _ s' =>
+    sim t' s' /\ ip s' = ip s /\ meter s' = meter s /\ code s' = code s /\ rskeys s' = rskeys s
+  | RErr k p t', RErr k' p' s' => k = k' /\ p = p' /\ sim t' s'
+  | RPanic, RPanic => True
+  | RUnsup, RUnsup => True
+  | _, _ => False
+  end.
+Proof. exact native_respects_sim. Qed.
+Check C01_natives_respect_sim : forall fo w m t s,
+  native_fn fo w = Some m -> sim t s -> rlog s = None ->
+  match m t, m s with
+  | ROk _ t', ROk _ s' =>
+    sim t' s' /\ ip s' = ip s /\ meter s' = meter s /\ code s' = code s /\ rskeys s' = rskeys s
+  | RErr k p t', RErr k' p' s' => k = k' /\ p = p' /\ sim t' s'
+  | RPanic, RPanic => True
+  | RUnsup, RUnsup => True
+  | _, _ => False
+  end.
+
+(* ---------- vocabulary, spelled out ---------- *)
+Theorem C01_agrees_is : forall nf s endp bc r,
+  agrees nf s endp bc r <->
+  match r with
+  | SDone t' =>
+    exists n s', steps nf n s = Some s' /\ ip s' = endp /\ sim t' s' /\
+                 code s' = code s /\ rlog s' = None /\ insn_limit s' = None /\ rskeys s' = rskeys s
+  | SBroke t' =>
+    exists n s', steps nf n s = Some s' /\
+                 nth_error (code s) (ip s') = Some (brk_op (ip s') bc) /\ bc <> BNone /\ sim t' s' /\
+                 code s' = code s /\ rlog s' = None /\ insn_limit s' = None /\ rskeys s' = rskeys s
+  | SFail k pl _ t' =>
+    exists n sN s', steps nf n s = Some sN /\ insn_limit sN = None /\
+                    fetch_and_run nf sN = RErr k pl s' /\ sim t' s'
+  | SOut => True
+  | SUnsup => True
+  end.
+Proof. exact agrees_is. Qed.
+Check C01_agrees_is : forall nf s endp bc r,
+  agrees nf s endp bc r <->
+  match r with
+  | SDone t' =>
+    exists n s', steps nf n s = Some s' /\ ip s' = endp /\ sim t' s' /\
+                 code s' = code s /\ rlog s' = None /\ insn_limit s' = None /\ rskeys s' = rskeys s
+  | SBroke t' =>
+    exists n s', steps nf n s = Some s' /\
+                 nth_error (code s) (ip s') = Some (brk_op (ip s') bc) /\ bc <> BNone /\ sim t' s' /\
+                 code s' = code s /\ rlog s' = None /\ insn_limit s' = None /\ rskeys s' = rskeys s
+  | SFail k pl _ t' =>
+    exists n sN s', steps nf n s = Some sN /\ insn_limit sN = None /\
+                    fetch_and_run nf sN = RErr k pl s' /\ sim t' s'
+  | SOut => True
+  | SUnsup => True
+  end.
+
+Theorem C01_run_agrees_is : forall fo s r,
+  run_agrees fo s r <->
+  match r with
+  | SDone t' =>
+    exists N s', (forall k, N < k -> run (native_fn fo) k s = Some (ROk tt s')) /\ sim t' s'
+  | SFail kd pl _ t' =>
+    exists N s', (forall k, N < k -> run (native_fn fo) k s = Some (RErr kd pl s')) /\ sim t' s'
+  | _ => True
+  end.
+Proof. exact run_agrees_is. Qed.
+Check C01_run_agrees_is : forall fo s r,
+  run_agrees fo s r <->
+  match r with
+  | SDone t' =>
+    exists N s', (forall k, N < k -> run (native_fn fo) k s = Some (ROk tt s')) /\ sim t' s'
+  | SFail kd pl _ t' =>
+    exists N s', (forall k, N < k -> run (native_fn fo) k s = Some (RErr kd pl s')) /\ sim t' s'
+  | _ => True
+  end.
+
+Theorem C01_funs_placed_is : forall funs faddr c,
+  funs_placed funs faddr c <->
+  (forall g body, fun_body funs g = Some body ->
+     code_at c (faddr g) (lay_block faddr body (faddr g) BNone ++ [ORet]) /\ wf_b body /\ nb_b body).
+Proof. exact funs_placed_is. Qed.
+Check C01_funs_placed_is : forall funs faddr c,
+  funs_placed funs faddr c <->
+  (forall g body, fun_body funs g = Some body ->
+     code_at c (faddr g) (lay_block faddr body (faddr g) BNone ++ [ORet]) /\ wf_b body /\ nb_b body).
+
+Theorem C01_code_at_is : forall c org l,
+  code_at c org l <-> (forall i op, nth_error l i = Some op -> nth_error c (org + i) = Some op).
+Proof. exact code_at_is. Qed.
+Check C01_code_at_is : forall c org l,
+  code_at c org l <-> (forall i op, nth_error l i = Some op -> nth_error c (org + i) = Some op).
+
+Theorem C01_prog_wf_is : forall funs l,
+  prog_wf funs l <->
+  (wf_b l /\ nb_b l /\
+   Forall (fun gb => In (SDef (fst gb)) l /\ wf_b (snd gb) /\ nb_b (snd gb)) funs).
+Proof. exact prog_wf_is. Qed.
+Check C01_prog_wf_is : forall funs l,
+  prog_wf funs l <->
+  (wf_b l /\ nb_b l /\
+   Forall (fun gb => In (SDef (fst gb)) l /\ wf_b (snd gb) /\ nb_b (snd gb)) funs).
+
+Theorem C01_brk_ok_is : forall bc b, brk_ok bc b <-> (bc = BNone -> nb_b b).
+Proof. exact brk_ok_is. Qed.
+Check C01_brk_ok_is : forall bc b, brk_ok bc b <-> (bc = BNone -> nb_b b).
+
+(* ---------- blocks and statements: every nesting, every break context ---------- *)
+Theorem C01_block_simulation : forall fo funs faddr fuel b org bc t s,
+  funs_placed funs faddr (code s) -> wf_b b -> brk_ok bc b ->
+  firstn (size_block b) (skipn org (code s)) = lay_block faddr b org bc ->
+  rlog s = None -> insn_limit s = None -> ip s = org -> sim t s ->
+  agrees (native_fn fo) s (org + size_block b) bc (sblock fo funs fuel b t).
+Proof. exact fwd_block. Qed.
+Check C01_block_simulation : forall fo funs faddr fuel b org bc t s,
+  funs_placed funs faddr (code s) -> wf_b b -> brk_ok bc b ->
+  firstn (size_block b) (skipn org (code s)) = lay_block faddr b org bc ->
+  rlog s = None -> insn_limit s = None -> ip s = org -> sim t s ->
+  agrees (native_fn fo) s (org + size_block b) bc (sblock fo funs fuel b t).
+
+Theorem C01_stmt_simulation : forall fo funs faddr fuel x org bc t s,
+  funs_placed funs faddr (code s) -> wf_s x -> brk_ok_s bc x ->
+  firstn (size_stmt x) (skipn org (code s)) = lay_stmt faddr x org bc ->
+  rlog s = None -> insn_limit s = None -> ip s = org -> sim t s ->
+  agrees (native_fn fo) s (org + size_stmt x) bc (sstmt fo funs fuel x t).
+Proof. exact fwd_stmt. Qed.
+Check C01_stmt_simulation : forall fo funs faddr fuel x org bc t s,
+  funs_placed funs faddr (code s) -> wf_s x -> brk_ok_s bc x ->
+  firstn (size_stmt x) (skipn org (code s)) = lay_stmt faddr x org bc ->
+  rlog s = None -> insn_limit s = None -> ip s = org -> sim t s ->
+  agrees (native_fn fo) s (org + size_stmt x) bc (sstmt fo funs fuel x t).
+
+(* the three cases of a block, spelled out *)
+Theorem C01_block_done : forall fo funs faddr fuel b org bc t s t',
+  funs_placed funs faddr (code s) -> wf_b b -> brk_ok bc b ->
+  firstn (size_block b) (skipn org (code s)) = lay_block faddr b org bc ->
+  rlog s = None -> insn_limit s = None -> ip s = org -> sim t s ->
+  sblock fo funs fuel b t = SDone t' ->
+  exists n s', steps (native_fn fo) n s = Some s' /\ ip s' = org + size_block b /\ sim t' s' /\
+               code s' = code s /\ rlog s' = None /\ insn_limit s' = None /\ rskeys s' = rskeys s.
+Proof. exact block_done. Qed.
+Check C01_block_done : forall fo funs faddr fuel b org bc t s t',
+  funs_placed funs faddr (code s) -> wf_b b -> brk_ok bc b ->
+  firstn (size_block b) (skipn org (code s)) = lay_block faddr b org bc ->
+  rlog s = None -> insn_limit s = None -> ip s = org -> sim t s ->
+  sblock fo funs fuel b t = SDone t' ->
+  exists n s', steps (native_fn fo) n s = Some s' /\ ip s' = org + size_block b /\ sim t' s' /\
+               code s' = code s /\ rlog s' = None /\ insn_limit s' = None /\ rskeys s' = rskeys s.
+
+Theorem C01_block_broke : forall fo funs faddr fuel b org bc t s t',
+  funs_placed funs faddr (code s) -> wf_b b -> brk_ok bc b ->
+  firstn (size_block b) (skipn org (code s)) = lay_block faddr b org bc ->
+  rlog s = None -> insn_limit s = None -> ip s = org -> sim t s ->
+  sblock fo funs fuel b t = SBroke t' ->
+  exists n s', steps (native_fn fo) n s = Some s' /\ sim t' s' /\
+    match bc with
+    | BNone => False
+    | BJump target => nth_error (code s) (ip s') = Some (OJump (rel (ip s') target))
+    | BLoop target => nth_error (code s) (ip s') = Some (OBreak (rel (ip s') target))
+    end.
+Proof. exact block_broke. Qed.
+Check C01_block_broke : forall fo funs faddr fuel b org bc t s t',
+  funs_placed funs faddr (code s) -> wf_b b -> brk_ok bc b ->
+  firstn (size_block b) (skipn org (code s)) = lay_block faddr b org bc ->
+  rlog s = None -> insn_limit s = None -> ip s = org -> sim t s ->
+  sblock fo funs fuel b t = SBroke t' ->
+  exists n s', steps (native_fn fo) n s = Some s' /\ sim t' s' /\
+    match bc with
+    | BNone => False
+    | BJump target => nth_error (code s) (ip s') = Some (OJump (rel (ip s') target))
+    | BLoop target => nth_error (code s) (ip s') = Some (OBreak (rel (ip s') target))
+    end.
+
+Theorem C01_block_fail : forall fo funs faddr fuel b org bc t s k pl p t',
+  funs_placed funs faddr (code s) -> wf_b b -> brk_ok bc b ->
+  firstn (size_block b) (skipn org (code s)) = lay_block faddr b org bc ->
+  rlog s = None -> insn_limit s = None -> ip s = org -> sim t s ->
+  sblock fo funs fuel b t = SFail k pl p t' ->
+  exists n sN s', steps (native_fn fo) n s = Some sN /\
+                  fetch_and_run (native_fn fo) sN = RErr k pl s' /\ sim t' s'.
+Proof. exact block_fail. Qed.
+Check C01_block_fail : forall fo funs faddr fuel b org bc t s k pl p t',
+  funs_placed funs faddr (code s) -> wf_b b -> brk_ok bc b ->
+  firstn (size_block b) (skipn org (code s)) = lay_block faddr b org bc ->
+  rlog s = None -> insn_limit s = None -> ip s = org -> sim t s ->
+  sblock fo funs fuel b t = SFail k pl p t' ->
+  exists n sN s', steps (native_fn fo) n s = Some sN /\
+                  fetch_and_run (native_fn fo) sN = RErr k pl s' /\ sim t' s'.
+
+(* ---------- the loops that catch `break`: the clean statement-level theorem ---------- *)
+Theorem C01_loops_catch_break : forall fo funs fuel x t t',
+  (exists p b pl, x = SDo p b pl) \/ (exists b, x = SRepeat b) \/ (exists c p b, x = SWhile c p b) ->
+  sstmt fo funs fuel x t <> SBroke t'.
+Proof. exact loops_no_broke. Qed.
+Check C01_loops_catch_break : forall fo funs fuel x t t',
+  (exists p b pl, x = SDo p b pl) \/ (exists b, x = SRepeat b) \/ (exists c p b, x = SWhile c p b) ->
+  sstmt fo funs fuel x t <> SBroke t'.
+
+Theorem C01_loop_statement : forall fo funs faddr fuel x org bc t s,
+  (exists p b pl, x = SDo p b pl) \/ (exists b, x = SRepeat b) \/ (exists c p b, x = SWhile c p b) ->
+  funs_placed funs faddr (code s) -> wf_s x ->
+  firstn (size_stmt x) (skipn org (code s)) = lay_stmt faddr x org bc ->
+  rlog s = None -> insn_limit s = None -> ip s = org -> sim t s ->
+  match sstmt fo funs fuel x t with
+  | SDone t' =>
+    exists n s', steps (native_fn fo) n s = Some s' /\ ip s' = org + size_stmt x /\ sim t' s' /\
+                 rskeys s' = rskeys s
+  | SBroke _ => False
+  | SFail k pl _ t' =>
+    exists n sN s', steps (native_fn fo) n s = Some sN /\
+                    fetch_and_run (native_fn fo) sN = RErr k pl s' /\ sim t' s'
+  | SOut => True
+  | SUnsup => True
+  end.
+Proof. exact loop_stmt. Qed.
+Check C01_loop_statement : forall fo funs faddr fuel x org bc t s,
+  (exists p b pl, x = SDo p b pl) \/ (exists b, x = SRepeat b) \/ (exists c p b, x = SWhile c p b) ->
+  funs_placed funs faddr (code s) -> wf_s x ->
+  firstn (size_stmt x) (skipn org (code s)) = lay_stmt faddr x org bc ->
+  rlog s = None -> insn_limit s = None -> ip s = org -> sim t s ->
+  match sstmt fo funs fuel x t with
+  | SDone t' =>
+    exists n s', steps (native_fn fo) n s = Some s' /\ ip s' = org + size_stmt x /\ sim t' s' /\
+                 rskeys s' = rskeys s
+  | SBroke _ => False
+  | SFail k pl _ t' =>
+    exists n sN s', steps (native_fn fo) n s = Some sN /\
+                    fetch_and_run (native_fn fo) sN = RErr k pl s' /\ sim t' s'
+  | SOut => True
+  | SUnsup => True
+  end.
+
+(* ---------- whole programs: definitions inline behind a jump, calls, recursion ---------- *)
+(* the layout puts every function where [def_addrs] says *)
+Theorem C01_layout_places_functions : forall funs l org prog c,
+  layout_program funs l org = Some prog -> prog_wf funs l ->
+  firstn (length prog) (skipn org c) = prog ->
+  funs_placed funs (addr_lookup (def_addrs funs l org)) c.
+Proof. exact layout_places_functions. Qed.
+Check C01_layout_places_functions : forall funs l org prog c,
+  layout_program funs l org = Some prog -> prog_wf funs l ->
+  firstn (length prog) (skipn org c) = prog ->
+  funs_placed funs (addr_lookup (def_addrs funs l org)) c.
+
+Theorem C01_program_simulation : forall fo funs l org prog fuel t s,
+  layout_program funs l org = Some prog -> prog_wf funs l ->
+  firstn (length prog) (skipn org (code s)) = prog ->
+  rlog s = None -> insn_limit s = None -> ip s = org -> sim t s ->
+  agrees (native_fn fo) s (org + length prog) BNone (sblock fo funs fuel l t).
+Proof. exact fwd_program. Qed.
+Check C01_program_simulation : forall fo funs l org prog fuel t s,
+  layout_program funs l org = Some prog -> prog_wf funs l ->
+  firstn (length prog) (skipn org (code s)) = prog ->
+  rlog s = None -> insn_limit s = None -> ip s = org -> sim t s ->
+  agrees (native_fn fo) s (org + length prog) BNone (sblock fo funs fuel l t).
+
+(* the program is the tail of the code vector: what [run] returns *)
+Theorem C01_program_run : forall fo funs l org prog fuel t s,
+  layout_program funs l org = Some prog -> prog_wf funs l ->
+  skipn org (code s) = prog ->
+  rlog s = None -> insn_limit s = None -> ip s = org -> sim t s ->
+  run_agrees fo s (sblock fo funs fuel l t).
+Proof. exact fwd_program_run. Qed.
+Check C01_program_run : forall fo funs l org prog fuel t s,
+  layout_program funs l org = Some prog -> prog_wf funs l ->
+  skipn org (code s) = prog ->
+  rlog s = None -> insn_limit s = None -> ip s = org -> sim t s ->
+  run_agrees fo s (sblock fo funs fuel l t).
+
+(* converse piece (determinism): whatever [run] returns is what the evaluator's answer predicts;
+   in particular a run that ends normally excludes [SFail] and a failing run excludes [SDone] *)
+Theorem C01_run_converse : forall fo funs l org prog fuel t s k r,
+  layout_program funs l org = Some prog -> prog_wf funs l ->
+  skipn org (code s) = prog ->
+  rlog s = None -> insn_limit s = None -> ip s = org -> sim t s ->
+  run (native_fn fo) k s = Some r ->
+  match sblock fo funs fuel l t with
+  | SDone t' => exists s', r = ROk tt s' /\ sim t' s'
+  | SFail kd pl _ t' => exists s', r = RErr kd pl s' /\ sim t' s'
+  | _ => True
+  end.
+Proof. exact run_converse. Qed.
+Check C01_run_converse : forall fo funs l org prog fuel t s k r,
+  layout_program funs l org = Some prog -> prog_wf funs l ->
+  skipn org (code s) = prog ->
+  rlog s = None -> insn_limit s = None -> ip s = org -> sim t s ->
+  run (native_fn fo) k s = Some r ->
+  match sblock fo funs fuel l t with
+  | SDone t' => exists s', r = ROk tt s' /\ sim t' s'
+  | SFail kd pl _ t' => exists s', r = RErr kd pl s' /\ sim t' s'
+  | _ => True
+  end.
+
+(* ---------- every source: the parser only returns well-formed programs ---------- *)
+Theorem C01_parsed_program_well_formed : forall fo pr src heap0 l funs n,
+  parse_source fo pr src heap0 = Some (l, funs, n) ->
+  well_placed funs l = true ->
+  prog_wf funs l.
+Proof. exact parse_prog_wf. Qed.
+Check C01_parsed_program_well_formed : forall fo pr src heap0 l funs n,
+  parse_source fo pr src heap0 = Some (l, funs, n) ->
+  well_placed funs l = true ->
+  prog_wf funs l.
+
+(* [seval_source] is the structural evaluation of the source from [t0] (its variables exist as
+   nil cells before any code runs); the machine [s] holds the layout of the parsed source *)
+Theorem C01_source_simulation : forall fo pr src org prog fuel t0 s l funs n,
+  parse_source fo pr src (length (heap t0)) = Some (l, funs, n) ->
+  layout_program funs l org = Some prog ->
+  firstn (length prog) (skipn org (code s)) = prog ->
+  rlog s = None -> insn_limit s = None -> ip s = org ->
+  sim (set_heap t0 (heap t0 ++ repeat CNil (n - length (heap t0)))) s ->
+  exists r, seval_source fo pr fuel src t0 = CRun r /\
+            agrees (native_fn fo) s (org + length prog) BNone r.
+Proof. exact source_steps. Qed.
+Check C01_source_simulation : forall fo pr src org prog fuel t0 s l funs n,
+  parse_source fo pr src (length (heap t0)) = Some (l, funs, n) ->
+  layout_program funs l org = Some prog ->
+  firstn (length prog) (skipn org (code s)) = prog ->
+  rlog s = None -> insn_limit s = None -> ip s = org ->
+  sim (set_heap t0 (heap t0 ++ repeat CNil (n - length (heap t0)))) s ->
+  exists r, seval_source fo pr fuel src t0 = CRun r /\
+            agrees (native_fn fo) s (org + length prog) BNone r.
+
+Theorem C01_source_run : forall fo pr src org prog fuel t0 s l funs n,
+  parse_source fo pr src (length (heap t0)) = Some (l, funs, n) ->
+  layout_program funs l org = Some prog ->
+  skipn org (code s) = prog ->
+  rlog s = None -> insn_limit s = None -> ip s = org ->
+  sim (set_heap t0 (heap t0 ++ repeat CNil (n - length (heap t0)))) s ->
+  exists r, seval_source fo pr fuel src t0 = CRun r /\ run_agrees fo s r.
+Proof. exact source_run. Qed.
+Check C01_source_run : forall fo pr src org prog fuel t0 s l funs n,
+  parse_source fo pr src (length (heap t0)) = Some (l, funs, n) ->
+  layout_program funs l org = Some prog ->
+  skipn org (code s) = prog ->
+  rlog s = None -> insn_limit s = None -> ip s = org ->
+  sim (set_heap t0 (heap t0 ++ repeat CNil (n - length (heap t0)))) s ->
+  exists r, seval_source fo pr fuel src t0 = CRun r /\ run_agrees fo s r.
+
+(* ---------- a terminated counted loop leaves no loop index visible to later code ---------- *)
+(* the loop stack after do ... loop is the loop stack before it: I / J / K of the code that
+   follows see what they saw before the loop (whatever the body did, breaks included) *)
+Theorem C01_do_leaves_no_index : forall fo funs fuel p b pl t t',
+  sstmt fo funs fuel (SDo p b pl) t = SDone t' -> loops t' = loops t.
+Proof. exact do_leaves_no_index. Qed.
+Check C01_do_leaves_no_index : forall fo funs fuel p b pl t t',
+  sstmt fo funs fuel (SDo p b pl) t = SDone t' -> loops t' = loops t.
+
+Theorem C01_do_leaves_no_index_machine : forall fo funs faddr fuel p b pl org bc t s t',
+  funs_placed funs faddr (code s) -> wf_s (SDo p b pl) ->
+  firstn (size_stmt (SDo p b pl)) (skipn org (code s)) = lay_stmt faddr (SDo p b pl) org bc ->
+  rlog s = None -> insn_limit s = None -> ip s = org -> sim t s ->
+  sstmt fo funs fuel (SDo p b pl) t = SDone t' ->
+  exists n s', steps (native_fn fo) n s = Some s' /\ ip s' = org + size_stmt (SDo p b pl) /\
+               sim t' s' /\ loops s' = loops s.
+Proof. exact do_no_index_machine. Qed.
+Check C01_do_leaves_no_index_machine : forall fo funs faddr fuel p b pl org bc t s t',
+  funs_placed funs faddr (code s) -> wf_s (SDo p b pl) ->
+  firstn (size_stmt (SDo p b pl)) (skipn org (code s)) = lay_stmt faddr (SDo p b pl) org bc ->
+  rlog s = None -> insn_limit s = None -> ip s = org -> sim t s ->
+  sstmt fo funs fuel (SDo p b pl) t = SDone t' ->
+  exists n s', steps (native_fn fo) n s = Some s' /\ ip s' = org + size_stmt (SDo p b pl) /\
+               sim t' s' /\ loops s' = loops s.
+
+(* ---------- a loop that structurally never terminates never falls through ---------- *)
+(* begin ... repeat whose body has no break of its own: the evaluator never finishes it ... *)
+Theorem C01_repeat_never_done : forall fo funs,
+  funs_nb funs ->
+  forall fuel b t t', nb_b b -> sstmt fo funs fuel (SRepeat b) t <> SDone t'.
+Proof. exact repeat_never_done. Qed.
+Check C01_repeat_never_done : forall fo funs,
+  funs_nb funs ->
+  forall fuel b t t', nb_b b -> sstmt fo funs fuel (SRepeat b) t <> SDone t'.
+
+Theorem C01_prog_wf_funs_nb : forall funs l, prog_wf funs l -> funs_nb funs.
+Proof. exact prog_wf_funs_nb. Qed.
+Check C01_prog_wf_funs_nb : forall funs l, prog_wf funs l -> funs_nb funs.
+
+(* ... and the machine, whatever the body does (calls, recursion, errors), is inside the code
+   of the loop whenever the return stack is at the depth it had on entry: it never reaches the
+   cell behind the loop.  (Pure machine-side invariant: no fuel, no evaluator, any break
+   context, any code around the loop, no instruction-limit hypothesis.) *)
+Theorem C01_repeat_never_falls_through : forall fo faddr b org bc s,
+  nb_b b ->
+  firstn (size_stmt (SRepeat b)) (skipn org (code s)) = lay_stmt faddr (SRepeat b) org bc ->
+  rlog s = None -> ip s = org ->
+  forall n sn, steps (native_fn fo) n s = Some sn -> length (rs sn) = length (rs s) ->
+               org <= ip sn < org + size_stmt (SRepeat b).
+Proof. exact repeat_no_fall_through. Qed.
+Check C01_repeat_never_falls_through : forall fo faddr b org bc s,
+  nb_b b ->
+  firstn (size_stmt (SRepeat b)) (skipn org (code s)) = lay_stmt faddr (SRepeat b) org bc ->
+  rlog s = None -> ip s = org ->
+  forall n sn, steps (native_fn fo) n s = Some sn -> length (rs sn) = length (rs s) ->
+               org <= ip sn < org + size_stmt (SRepeat b).
+
+(* ---------- non-vacuity ---------- *)
+Local Open Scope string_scope.
+Definition ex_fo : fops := fops_with Z.add Z.sub Z.mul Z.div Z.rem Z.min Z.max.
+Definition ex_pr : string -> option Z := fun _ => None.
+
+(* a recursive definition with a local, a variable, do with I and a break inside if, a call in
+   the loop body, case, begin-while-repeat, begin-until *)
+Definition ex_src : string :=
+  ": fact local n n 1 <= if 1 else n n 1 - fact * then ; 0 var acc 5 0 do I 3 == if break then I fact acc + ! acc loop acc case 1 of 100 endof 10 of 200 endof 300 endcase 0 begin dup 3 < while 1 + repeat begin 1 + dup 6 >= until".
+Definition ex_parsed := Eval vm_compute in parse_source ex_fo ex_pr ex_src (length boot_heap).
+Definition ex_l := Eval vm_compute in match ex_parsed with Some (l, _, _) => l | None => [] end.
+Definition ex_funs := Eval vm_compute in match ex_parsed with Some (_, f, _) => f | None => [] end.
+Definition ex_n := Eval vm_compute in match ex_parsed with Some (_, _, n) => n | None => 0 end.
+Definition ex_prog := Eval vm_compute in match layout_program ex_funs ex_l 0 with Some p => p | None => [] end.
+Definition ex_t0 : state := set_code boot ex_prog.
+Definition ex_s : state := set_heap ex_t0 (heap ex_t0 ++ repeat CNil (ex_n - length (heap ex_t0))).
+
+(* the hypotheses of C01_source_run / C01_source_simulation hold ... *)
+Example C01_source_hypotheses :
+  parse_source ex_fo ex_pr ex_src (length (heap ex_t0)) = Some (ex_l, ex_funs, ex_n) /\
+  layout_program ex_funs ex_l 0 = Some ex_prog /\
+  skipn 0 (code ex_s) = ex_prog /\ firstn (length ex_prog) (skipn 0 (code ex_s)) = ex_prog /\
+  rlog ex_s = None /\ insn_limit ex_s = None /\ ip ex_s = 0 /\
+  sim (set_heap ex_t0 (heap ex_t0 ++ repeat CNil (ex_n - length (heap ex_t0)))) ex_s /\
+  length ex_funs = 1 /\ length ex_prog = 55.
+Proof. vm_compute. repeat split. Qed.
+
+(* ... and both sides finish with the same stack: 0! + 1! + 2! = 4 (break at I = 3), the
+   default arm, the while loop counts to 3 and the until loop on to 6 *)
+Example C01_source_done :
+  exists t' s',
+    seval_source ex_fo ex_pr 100 ex_src ex_t0 = CRun (SDone t') /\
+    run (native_fn ex_fo) 1000 ex_s = Some (ROk tt s') /\
+    sim t' s' /\ ds s' = [CInt 6; CInt 300; CInt 4] /\ loops s' = [] /\ rs s' = [] /\
+    nth_error (heap s') 6 = Some (CInt 4) /\ ip s' = 55.
+Proof. eexists. eexists. vm_compute. repeat split. Qed.
+
+(* a failing program: division by zero in the sixth iteration; same error kind, same payload,
+   same stacks (the loop record is still there) *)
+Definition ex_src2 : string := "10 0 do I 5 == if 1 0 / then loop".
+Definition ex_l2 := Eval vm_compute in
+  match parse_source ex_fo ex_pr ex_src2 (length boot_heap) with Some (l, _, _) => l | None => [] end.
+Definition ex_prog2 := Eval vm_compute in match layout_program [] ex_l2 0 with Some p => p | None => [] end.
+Definition ex_s2 : state := set_code boot ex_prog2.
+
+Example C01_source_fail :
+  parse_source ex_fo ex_pr ex_src2 (length (heap ex_s2)) = Some (ex_l2, [], 6) /\
+  layout_program [] ex_l2 0 = Some ex_prog2 /\ skipn 0 (code ex_s2) = ex_prog2 /\
+  exists p t' s',
+    seval_source ex_fo ex_pr 100 ex_src2 ex_s2 = CRun (SFail EDivZero None p t') /\
+    run (native_fn ex_fo) 1000 ex_s2 = Some (RErr EDivZero None s') /\
+    sim t' s' /\ loops s' = [mkloop CNil 5 10] /\ ds s' = [].
+Proof. split; [|split; [|split]]; try (vm_compute; reflexivity). eexists. eexists. eexists. vm_compute. repeat split. Qed.
+
+(* the hypotheses of the block / statement theorems: a tree with nested do / if / break, laid
+   out in a break context, functions placed *)
+Example C01_block_hypotheses :
+  funs_placed ex_funs (addr_lookup (def_addrs ex_funs ex_l 0)) (code ex_s) /\
+  prog_wf ex_funs ex_l /\ funs_nb ex_funs /\
+  exists p b pl, In (SDo p b pl) ex_l /\ wf_s (SDo p b pl) /\ In (SIf (78, 80)%nat [SBreak]) b /\
+                 firstn (size_stmt (SDo p b pl)) (skipn 19 (code ex_s)) =
+                 lay_stmt (addr_lookup (def_addrs ex_funs ex_l 0)) (SDo p b pl) 19 BNone.
+Proof.
+  assert (W : prog_wf ex_funs ex_l).
+  { eapply C01_parsed_program_well_formed with (fo := ex_fo) (pr := ex_pr) (src := ex_src) (heap0 := 6) (n := ex_n);
+      vm_compute; reflexivity. }
+  split; [|split; [exact W|split; [exact (C01_prog_wf_funs_nb _ _ W)|]]].
+  - eapply C01_layout_places_functions with (prog := ex_prog) (org := 0); [vm_compute; reflexivity|exact W|vm_compute; reflexivity].
+  - eexists. eexists. eexists. split; [cbn; right; right; right; right; right; left; reflexivity|].
+    split; [repeat constructor|]. split; [cbn; right; right; right; left; reflexivity|vm_compute; reflexivity].
+Qed.
+
+(* begin 1 drop repeat: the hypotheses of C01_repeat_never_falls_through hold, and after 100
+   steps the machine is still inside the three cells of the loop *)
+Definition ex_loop : list stmt := [SLit (CInt 1) (0, 1)%nat; SPrim "drop" (2, 6)%nat].
+Definition ex_s3 : state := set_code boot (lay_stmt (fun _ => 0) (SRepeat ex_loop) 0 BNone ++ [OLoadNil]).
+
+Example C01_repeat_nonvacuous :
+  nb_b ex_loop /\
+  firstn (size_stmt (SRepeat ex_loop)) (skipn 0 (code ex_s3)) = lay_stmt (fun _ => 0) (SRepeat ex_loop) 0 BNone /\
+  rlog ex_s3 = None /\ ip ex_s3 = 0 /\
+  exists sn, steps (native_fn ex_fo) 100 ex_s3 = Some sn /\ length (rs sn) = length (rs ex_s3) /\
+             ip sn = 1 /\ size_stmt (SRepeat ex_loop) = 3.
+Proof.
+  split; [repeat constructor|]. split; [vm_compute; reflexivity|]. split; [reflexivity|]. split; [reflexivity|].
+  eexists. vm_compute. repeat split.
+Qed.
